@@ -215,6 +215,9 @@ async fn run_one(i: usize, b: Value, path: String, unit: usize, interval: u16) -
             }
             _ => {}
         }
+        if std::env::var("RNVERIF_DEBUG").is_ok() {
+            eprintln!("step {} {} -> {}", k, op, mgr);
+        }
         let check_last = op == "reopen" || ((op == "append" || op == "batch") && s["res"] == "ok");
         if let Some(m) = check_obs(i, k, &mut mgr, &s["obs"], first, &sizes, check_last).await {
             return m;
